@@ -28,6 +28,7 @@ SIG_FUNC_ORDER = "funcObject:lazy-prototype-listed-before-index-keys"
 SIG_DYN_CYCLE = "dynamicObject:setPrototypeOf-cycle"
 SIG_NIL_PANIC = "exotic-defineProperty-nil-deref:"          # + kind
 SIG_GOSLICE_GROWS = "goslice:non-extensible-slice-grows"
+SIG_GOSLICE_SHRINKS = "goslice:length-shrink-removes-nonconfigurable-elements"
 
 
 # ----------------------------------------------------------------------------------------------- table (corr A)
@@ -368,6 +369,10 @@ def classify_monitor(case, mon, idxs, j, verdict):
         a, b = parse_props(mon[prev]), parse_props(ml)
         if set(a) < set(b) and all(k.startswith("i") for k in set(b) - set(a)):
             return SIG_GOSLICE_GROWS
+    if kind == "goslice" and verdict.strip() == "bad step" and prev is not None:
+        a, b = parse_props(mon[prev]), parse_props(ml)
+        if set(b) < set(a) and all(k.startswith("i") for k in set(a) - set(b)):
+            return SIG_GOSLICE_SHRINKS
     if verdict.strip() == "bad step" and prev is not None:
         a, b = parse_props(mon[prev]), parse_props(ml)
         ops = [lines[x].split() for x in range(idxs[prev] + 1, idxs[j] + 1)]
@@ -504,8 +509,8 @@ def main(ctx):
     ctx.log("table done %.1fs variant=%s" % (time.time() - t0, variant))
 
     # ---------------- sequences
-    n_mod = 2500 if quick else 30000
-    n_mon = 900 if quick else 10000
+    n_mod = 2500 if quick else 12000
+    n_mon = 900 if quick else 4000
     cases = list(corpus)
     for i in range(n_mod):
         cases.append(gen_case(ctx.rng, False))
@@ -602,7 +607,7 @@ def main(ctx):
     # diverging modelled sequences: shrink, classify
     known_like, shrunk = 0, 0
     seq_ok = True
-    budget = 6 if quick else 25
+    budget = 4 if quick else 20
     diverging.sort(key=lambda t: (any(" !kind" in l for l in t[2][:t[3] + 1]), len(t[0]["ops"])))
     for c, impl, mdl, d in diverging:
         marker_before = any(" !kind" in l for l in mdl[:d + 1])
